@@ -1,4 +1,5 @@
 import LunaVerif.Model.Ulpi.Spec
+import LunaVerif.Lemmas.C24Converge
 /-!
 # C24 — ULPI control registers always converge to the requested UTMI settings
 
@@ -12,14 +13,27 @@ The model is the code after the `fix:` commits of branch `wt-ulpi` (F11: latched
 credit by latched address; cross gating of `bus_idle`).  On the unfixed code all three theorems
 fail on the real gateware (replays in notes/C24.md).
 
-Full convergence statement (NOT proved as one theorem; see `converges_partial` for the parts):
+Theorems of this file, first part (components): `write_carries_own_value`, `converges_partial` (one
+request / latch / commit / credit round), `no_mutual_blocking` (exclusion invariant of `Utmi.run`),
+`deadlock_unreachable`, start conditions.
 
-  theorem converges (K : Nat) (h : List UtmiIn) (t : Nat) :
-    control inputs of h constant = c from cycle t on →
-    (DIR low often enough, every byte presented with DIR low answered by NXT within K cycles,
-     LegalNxt, no abort of link transmissions, UTMI packets finite) →
-    ∃ n ≤ 2 * (K + 6) + transmit time, the PHY register file observed on the pins after t + n cycles
-      has r04 = functionControl c ∧ r0A = otgControl c, and stays so.
+Second part (closed system `World` = translator + PHY-side observer on its pins + environment
+monitor, `Lemmas/C24World.lean`; proofs in `Lemmas/C24Coh.lean`, `C24RankStep.lean`,
+`C24Converge.lean`):
+
+* `phy_tracks_window` — for every PHY obeying `safeCycle` (E1 no NXT in the turnaround cycle, E2 no
+  abort of an accepted link transmission, E3 NXT with an idle parser only when a byte is on the bus)
+  the observer on the pins commits exactly the register window's completed writes, its registers
+  equal the shadow registers (or the latched pair while `done` is shown);
+* `converges` / `converges_from_reset` — control inputs constant, bounded fairness `liveCycle K T`
+  (`K`, `T` universally quantified), `N` DIR-high cycles in the history: after
+  `convergeBound K T N = 3(2K+6) + T + (2K+5)·N` cycles PHY registers = shadows = requested settings,
+  nothing pending;
+* `tx_delay_bounded`, `write_delay_bounded` — `no_mutual_blocking` at history level;
+* `dir_low_often_is_not_enough` — why the DIR hypothesis is a budget `N` of DIR-high cycles and not
+  "DIR is low at least once every D cycles": a PHY that raises DIR every third cycle satisfies every
+  other hypothesis, and no register write ever completes (true of any ULPI link: a register write
+  needs four consecutive DIR-low cycles at the very least).
 -/
 namespace LunaVerif.Ulpi
 
@@ -318,5 +332,428 @@ theorem write_starts_when_tx_idle (cfg : Config) (s : Utmi) (i : UtmiIn)
 theorem claimed_tx_not_preempted (s : Utmi) (c : Controls) (h : s.tx.outReq = true) :
     (s.ctlOut c).writeReq = false := by
   simp [Utmi.ctlOut, request_iff_mismatch, Utmi.ctlBusIdle, h]
+
+set_option linter.unusedSimpArgs false
+
+/-! ## The PHY-side observer and the register window, for every legal PHY -/
+
+/-- Number of cycles of the history in which the register window showed `done`. -/
+def doneCount (cfg : Config) : Utmi → List UtmiIn → Nat
+  | _, [] => 0
+  | s, i :: is => (if s.win.done then 1 else 0) + doneCount cfg (s.step cfg i).1 is
+
+theorem dones_run (cfg : Config) (x : World) (h : List UtmiIn) :
+    (World.run cfg x h).e.dones = x.e.dones + doneCount cfg x.u h := by
+  induction h generalizing x with
+  | nil => rfl
+  | cons i is ih =>
+    simp only [World.run, doneCount, ih]
+    simp only [World.step, Env.step]
+    omega
+
+/-- **phy_tracks_window.**  For every configuration and every history from reset whose PHY obeys
+`safeCycle` in every cycle (E1 no NXT in the turnaround cycle, E2 no abort of an accepted link
+transmission, E3 NXT with an idle parser only when a byte is on the bus) — whatever the UTMI
+transmitter and the control inputs do: the observer attached to the translator's pins has committed
+exactly the register window's completed writes.  Precisely, with `y` the state after the history:
+
+* the number of writes the PHY committed equals the number of `done` pulses of the window (the one
+  being shown included), and no write went to an address other than 0x04 / 0x0A;
+* while `done` is low (window idle or in the middle of a write, transmissions included) the PHY's
+  registers equal the shadow registers;
+* while `done` is shown the register the window latched holds the latched value — which the
+  control translator credits to that register's shadow at this clock edge (`credit`) — and the
+  other one equals its shadow;
+* the window's latched address is a control register whenever it is busy or done, and the PHY's bus
+  parser is inside a transmission exactly when the transmit translator is. -/
+theorem phy_tracks_window (cfg : Config) (h : List UtmiIn)
+    (hl : SafeOk cfg (World.init cfg) h = true) :
+    let y := World.run cfg (World.init cfg) h
+    y.p.writes = doneCount cfg (Utmi.init cfg) h + (if y.u.win.done then 1 else 0) ∧ y.p.other = 0 ∧
+    (y.u.win.done = false → y.p.r04 = y.u.ctl.cur04 ∧ y.p.r0A = y.u.ctl.cur0A) ∧
+    (y.u.win.done = true →
+      (y.u.win.curAddr = ADDR_FUNCTION_CONTROL ∧ y.p.r04 = y.u.win.curWrite ∧ y.p.r0A = y.u.ctl.cur0A) ∨
+      (y.u.win.curAddr = ADDR_OTG_CONTROL ∧ y.p.r0A = y.u.win.curWrite ∧ y.p.r04 = y.u.ctl.cur04)) ∧
+    (y.p.bus = .transmitting ↔ y.u.tx.st = .transmit) := by
+  intro y
+  have hc : Coh y := coh_run cfg _ h (coh_init cfg) hl
+  have hd : y.e.dones = doneCount cfg (Utmi.init cfg) h := by
+    have := dones_run cfg (World.init cfg) h
+    simp only [World.init, Nat.zero_add] at this
+    exact this
+  obtain ⟨h1, h2, h3⟩ := hc
+  refine ⟨by rw [h2, hd], h1, ?_⟩
+  cases hw : y.u.win.st <;> simp only [hw] at h3
+  case idle =>
+    obtain ⟨_, _, h4⟩ := h3
+    rcases h4 with ⟨g1, _, gt, gb, ga, g4, gA⟩ | ⟨g1, _, g4, gA, gt⟩
+    · rcases ga with ga | ga <;> simp_all [ADDR_FUNCTION_CONTROL, ADDR_OTG_CONTROL]
+    · rcases gt with ⟨gt, gb⟩ | ⟨gt, gb⟩ | ⟨gt, gb⟩ <;> simp_all
+  case startWrite => obtain ⟨⟨_, gt, _, gd, g4, gA⟩, gb, _⟩ := h3; simp_all
+  case sendWriteAddress => obtain ⟨⟨_, gt, _, gd, g4, gA⟩, gb, _⟩ := h3; simp_all
+  case holdWrite => obtain ⟨⟨_, gt, _, gd, g4, gA⟩, gb, _⟩ := h3; simp_all
+  case stopping => obtain ⟨⟨_, gt, _, gd, g4, gA⟩, gb, _⟩ := h3; simp_all
+
+/-- **settled_regs_equal_requested** — the second clause of the property, for every history from reset
+whose PHY obeys `safeCycle` and whatever the control inputs did: whenever no change is pending for the
+control inputs `c` (both shadow registers equal the requested values, nothing being credited), the
+PHY's registers equal the requested settings. -/
+theorem settled_regs_equal_requested (cfg : Config) (h : List UtmiIn) (c : Controls)
+    (hl : SafeOk cfg (World.init cfg) h = true) :
+    let y := World.run cfg (World.init cfg) h
+    y.u.win.done = false → y.u.ctl.cur04 = functionControl c → y.u.ctl.cur0A = otgControl c →
+    y.p.r04 = functionControl c ∧ y.p.r0A = otgControl c := by
+  intro y hd h4 hA
+  obtain ⟨_, _, h3, _⟩ := phy_tracks_window cfg h hl
+  obtain ⟨g4, gA⟩ := h3 hd
+  exact ⟨g4.trans h4, gA.trans hA⟩
+
+/-! ## Convergence -/
+
+/-- The explicit bound: three register writes of at most `2K+6` cycles each (one possibly in flight
+with a stale value when the inputs settle, then one per register), one transmission of at most `T`
+cycles in between, and `2K+5` cycles per DIR-high cycle `N` (the cycle itself plus the restart of the
+register write it aborts). -/
+def convergeBound (K T N : Nat) : Nat := 3 * (2 * K + 6) + T + (2 * K + 5) * N
+
+/-- **converges.**  From any coherent state with the start-up timer expired: if the UTMI control
+inputs are constant `= c` throughout the history `h`, the PHY and the UTMI transmitter satisfy the
+bounded-fairness hypotheses `liveCycle K T` in every cycle (for arbitrary `K`, `T`), and `h` is at
+least `convergeBound K T N` cycles long, `N` the number of DIR-high cycles in `h`, then after `h`
+the PHY registers 0x04 / 0x0A equal the requested settings, so do the shadow registers, the register
+window is idle, nothing is credited, requested or pending.  (Every longer history satisfying the
+hypotheses ends settled too, so the registers *stay* equal.) -/
+theorem converges (cfg : Config) (K T : Nat) (c : Controls) (x : World) (h : List UtmiIn)
+    (hc : Coh x) (hl : Live K x) (hr : x.u.phyReady = true)
+    (hcc : ctrlConst c h = true) (ho : LiveOk cfg K T x h = true)
+    (hn : convergeBound K T (dirHigh h) ≤ h.length) :
+    let y := World.run cfg x h
+    y.p.r04 = functionControl c ∧ y.p.r0A = otgControl c ∧
+    y.u.ctl.cur04 = functionControl c ∧ y.u.ctl.cur0A = otgControl c ∧
+    y.u.win.st = .idle ∧ y.u.win.done = false ∧ y.u.ctl.busy = false ∧ (y.u.ctlOut c).writeReq = false := by
+  intro y
+  have hrk := rank_le K T (functionControl c) (otgControl c) x hc hl
+  have hz := rank_reaches_zero cfg K T c x h hc hl hr hcc ho (by unfold convergeBound at hn; omega)
+  obtain ⟨hc', hl'⟩ := inv_run cfg K T x h hc hl ho
+  obtain ⟨s1, s2, s3, s4, s5, s6, s7⟩ := rank_zero_settled K T _ _ _ hc' hl' hz
+  refine ⟨s6, s7, s4, s5, s1, s2, s3, ?_⟩
+  exact (settled_no_request _ _ _ _ _ s4 s5).1
+
+/-- **converges**, from reset: `h0` is an arbitrary prefix (control inputs changing at will) after
+which the start-up timer has expired; the hypotheses are required of the whole history. -/
+theorem converges_from_reset (cfg : Config) (K T : Nat) (c : Controls) (h0 h : List UtmiIn)
+    (hr : (Utmi.run cfg (Utmi.init cfg) h0).phyReady = true)
+    (hcc : ctrlConst c h = true) (ho : LiveOk cfg K T (World.init cfg) (h0 ++ h) = true)
+    (hn : convergeBound K T (dirHigh h) ≤ h.length) :
+    let y := World.run cfg (World.init cfg) (h0 ++ h)
+    y.p.r04 = functionControl c ∧ y.p.r0A = otgControl c ∧
+    y.u.ctl.cur04 = functionControl c ∧ y.u.ctl.cur0A = otgControl c ∧
+    y.u.win.st = .idle ∧ y.u.win.done = false ∧ y.u.ctl.busy = false ∧ (y.u.ctlOut c).writeReq = false := by
+  rw [LiveOk_append, Bool.and_eq_true] at ho
+  have hl0 : Live K (World.init cfg) := by simp [Live, World.init, Utmi.init]
+  obtain ⟨hc1, hl1⟩ := inv_run cfg K T _ h0 (coh_init cfg) hl0 ho.1
+  have hr1 : (World.run cfg (World.init cfg) h0).u.phyReady = true := by
+    rw [World.run_u]; exact hr
+  rw [World.run_append]
+  exact converges cfg K T c _ h hc1 hl1 hr1 hcc ho.2 hn
+
+
+/-- `P` holds in the start state and after every prefix of the history (the whole history included). -/
+def Along (cfg : Config) (P : World → Bool) : World → List UtmiIn → Bool
+  | x, [] => P x
+  | x, i :: is => P x && Along cfg P (x.step cfg i) is
+
+theorem Along_head (cfg : Config) (P : World → Bool) (x : World) (h : List UtmiIn)
+    (ha : Along cfg P x h = true) : P x = true := by
+  cases h with
+  | nil => exact ha
+  | cons i is => simp only [Along, Bool.and_eq_true] at ha; exact ha.1
+
+/-- A change of a control register is pending, but the register window has not accepted the write. -/
+def writeUnstarted (c : Controls) (y : World) : Bool :=
+  y.u.win.st == .idle && !y.u.win.done &&
+    (y.u.ctl.cur04 != functionControl c || y.u.ctl.cur0A != otgControl c)
+
+/-- The transmit translator has not claimed the bus. -/
+def txUnstarted (y : World) : Bool := !y.u.tx.outReq
+
+def allTxValid : List UtmiIn → Bool
+  | [] => true
+  | i :: is => i.txValid && allTxValid is
+
+theorem coh_tx_free (x : World) (hc : Coh x) (h : x.u.tx.outReq = false) : x.u.tx = ⟨.idle, false⟩ := by
+  obtain ⟨_, _, h3⟩ := hc
+  cases hw : x.u.win.st <;> simp only [hw] at h3
+  case idle =>
+    obtain ⟨_, _, h4⟩ := h3
+    rcases h4 with ⟨_, _, gt, _⟩ | ⟨_, _, _, _, gt⟩
+    · exact gt
+    · rcases gt with ⟨gt, _⟩ | ⟨gt, _⟩ | ⟨gt, _⟩
+      · exact gt
+      · rw [gt] at h; simp at h
+      · rw [gt] at h; simp at h
+  all_goals exact h3.1.2.1
+
+theorem rank_le_free (K T v04 v0A : Nat) (x : World) (hc : Coh x) (hf : x.u.tx.outReq = false) :
+    rank K T v04 v0A x ≤ 3 * (2 * K + 6) := by
+  have ht := coh_tx_free x hc hf
+  obtain ⟨⟨win, ctl, tx, rx, rdy, cnt⟩, ⟨pb, r4, rA, po, pw⟩, ⟨pd, wt, tl, mh, dn⟩⟩ := x
+  obtain ⟨wst, ca, cw, d, oq, sp, wdn, rd⟩ := win
+  simp only at ht
+  subst ht
+  have e1 : ∀ a b, wcost K a b ≤ 2 * K + 6 := by intro a b; unfold wcost; split <;> omega
+  have p1 := e1 ctl.cur04 v04
+  have p2 := e1 ctl.cur0A v0A
+  have p3 := e1 cw v04
+  have p4 := e1 cw v0A
+  cases wst <;> simp only [rank]
+  case idle =>
+    split
+    · simp only [pendAfter]; (repeat' split) <;> omega
+    · split
+      · omega
+      · simp only [pendNow, txRank]; omega
+  all_goals ((try simp only [pendAfter]); (repeat' split) <;> omega)
+
+/-- A waiting transmission: DIR-low cycles are bounded by the rank. -/
+theorem tx_wait_low (cfg : Config) (K T : Nat) (c : Controls) (x : World) (h : List UtmiIn)
+    (hc : Coh x) (hl : Live K x) (hr : x.u.phyReady = true) (hcc : ctrlConst c h = true)
+    (ho : LiveOk cfg K T x h = true) (hv : allTxValid h = true)
+    (hw : Along cfg txUnstarted x h = true) :
+    dirLow h ≤ rank K T (functionControl c) (otgControl c) x + (2 * K + 4) * dirHigh h := by
+  induction h generalizing x with
+  | nil => simp [dirLow]
+  | cons i is ih =>
+    simp only [ctrlConst, LiveOk, allTxValid, Along, Bool.and_eq_true, decide_eq_true_eq] at hcc ho hv hw
+    obtain ⟨hi, hcc⟩ := hcc
+    obtain ⟨h1, h2⟩ := ho
+    have hs := rank_step cfg K T x i hc hl h1
+    have hc1 := coh_step cfg x i hc (liveCycle_safe h1)
+    subst hi
+    obtain ⟨hz, hstep⟩ := hs.2 hr
+    have ih' := ih _ hc1 hs.1 (ready_step cfg x i hr) hcc h2 hv.2 hw.2
+    have hx1 := Along_head cfg _ _ _ hw.2
+    simp only [dirLow, dirHigh]
+    have hm : (2 * K + 4) * (1 + dirHigh is) = (2 * K + 4) + (2 * K + 4) * dirHigh is := by
+      rw [Nat.mul_add, Nat.mul_one]
+    cases hd : i.phy.dir <;> simp only [hd, if_true, if_false, Bool.false_eq_true, Nat.zero_add] at hstep ⊢
+    · by_cases hr0 : rank K T (functionControl i.ctrl) (otgControl i.ctrl) x = 0
+      · -- settled, DIR low, tx_valid: the transmitter claims the bus in this cycle
+        exfalso
+        obtain ⟨s1, s2, s3, s4, s5, _, _⟩ := rank_zero_settled K T _ _ _ hc hl hr0
+        have hfree := coh_tx_free x hc (by simpa [txUnstarted] using hw.1)
+        have := tx_starts_when_settled cfg x.u i s4 s5 s3 hd hr hv.1 (by rw [hfree])
+        simp only [txUnstarted, World.step, this] at hx1
+        exact absurd hx1 (by decide)
+      · omega
+    · rw [hm]; omega
+
+/-- **no_mutual_blocking, transmissions** (history level).  Control inputs constant, hypotheses
+`liveCycle K T` satisfied, `tx_valid` high in every cycle of `h`, and the transmit translator has not
+claimed the bus in the start state nor after any prefix of `h` (all of `h` included): then `h` is
+shorter than three register writes (one possibly in flight, one per register) plus `2K+5` cycles per
+DIR-high cycle.  Pending register writes delay a transmission by at most that. -/
+theorem tx_delay_bounded (cfg : Config) (K T : Nat) (c : Controls) (x : World) (h : List UtmiIn)
+    (hc : Coh x) (hl : Live K x) (hr : x.u.phyReady = true) (hcc : ctrlConst c h = true)
+    (ho : LiveOk cfg K T x h = true) (hv : allTxValid h = true)
+    (hw : Along cfg txUnstarted x h = true) :
+    h.length ≤ 3 * (2 * K + 6) + (2 * K + 5) * dirHigh h := by
+  have h1 := tx_wait_low cfg K T c x h hc hl hr hcc ho hv hw
+  have h2 := rank_le_free K T (functionControl c) (otgControl c) x hc
+    (by simpa [txUnstarted] using Along_head cfg _ _ _ hw)
+  have hm : (2 * K + 5) * dirHigh h = (2 * K + 4) * dirHigh h + dirHigh h := by
+    rw [show 2 * K + 5 = (2 * K + 4) + 1 from rfl, Nat.add_mul, Nat.one_mul]
+  have := dir_count h
+  omega
+
+theorem shadows_keep (cfg : Config) (x : World) (i : UtmiIn) (hd : x.u.win.done = false) :
+    (x.step cfg i).u.ctl.cur04 = x.u.ctl.cur04 ∧ (x.step cfg i).u.ctl.cur0A = x.u.ctl.cur0A := by
+  simp [World.step, Utmi.step, Ctl.step, hd]
+
+theorem unstarted_rank (K T : Nat) (c : Controls) (x : World) (hu : writeUnstarted c x = true) :
+    rank K T (functionControl c) (otgControl c) x
+      = pendNow K (functionControl c) (otgControl c) x.u + txRank K T x ∧
+    1 ≤ pendNow K (functionControl c) (otgControl c) x.u := by
+  simp only [writeUnstarted, Bool.and_eq_true, Bool.or_eq_true, beq_iff_eq, Bool.not_eq_true', bne_iff_ne] at hu
+  obtain ⟨⟨hs, hd⟩, hm⟩ := hu
+  have hp : 1 ≤ pendNow K (functionControl c) (otgControl c) x.u := by
+    simp only [pendNow, wcost]
+    rcases hm with g | g <;> simp only [g, if_false] <;> omega
+  refine ⟨?_, hp⟩
+  simp only [rank, hs, hd, Bool.false_eq_true, if_false]
+  split
+  · omega
+  · rfl
+
+/-- A pending write that is not accepted: DIR-low cycles are bounded by the transmitter's rank. -/
+theorem write_wait_low (cfg : Config) (K T : Nat) (c : Controls) (x : World) (h : List UtmiIn)
+    (hc : Coh x) (hl : Live K x) (hr : x.u.phyReady = true) (hcc : ctrlConst c h = true)
+    (ho : LiveOk cfg K T x h = true) (hw : Along cfg (writeUnstarted c) x h = true) :
+    dirLow h ≤ txRank K T x + (2 * K + 4) * dirHigh h := by
+  induction h generalizing x with
+  | nil => simp [dirLow]
+  | cons i is ih =>
+    simp only [ctrlConst, LiveOk, Along, Bool.and_eq_true, decide_eq_true_eq] at hcc ho hw
+    obtain ⟨hi, hcc⟩ := hcc
+    obtain ⟨h1, h2⟩ := ho
+    have hs := rank_step cfg K T x i hc hl h1
+    have hc1 := coh_step cfg x i hc (liveCycle_safe h1)
+    subst hi
+    obtain ⟨hz, hstep⟩ := hs.2 hr
+    have ih' := ih _ hc1 hs.1 (ready_step cfg x i hr) hcc h2 hw.2
+    have hx1 := Along_head cfg _ _ _ hw.2
+    obtain ⟨e0, p0⟩ := unstarted_rank K T i.ctrl x hw.1
+    obtain ⟨e1, p1⟩ := unstarted_rank K T i.ctrl _ hx1
+    have hd0 : x.u.win.done = false := by
+      have := hw.1
+      simp only [writeUnstarted, Bool.and_eq_true, Bool.not_eq_true'] at this
+      exact this.1.2
+    have hk := shadows_keep cfg x i hd0
+    have hp : pendNow K (functionControl i.ctrl) (otgControl i.ctrl) (x.step cfg i).u
+        = pendNow K (functionControl i.ctrl) (otgControl i.ctrl) x.u := by
+      simp only [pendNow, hk.1, hk.2]
+    rw [e0, e1, hp] at hstep
+    simp only [dirLow, dirHigh]
+    have hm : (2 * K + 4) * (1 + dirHigh is) = (2 * K + 4) + (2 * K + 4) * dirHigh is := by
+      rw [Nat.mul_add, Nat.mul_one]
+    cases hd : i.phy.dir <;> simp only [hd, if_true, if_false, Bool.false_eq_true, Nat.zero_add] at hstep ⊢
+    · omega
+    · rw [hm]; omega
+
+theorem txRank_le (K T : Nat) (x : World) : txRank K T x ≤ K + 2 + T := by
+  obtain ⟨⟨win, ctl, ⟨tst, treq⟩, rx, rdy, cnt⟩, p, ⟨pd, wt, tl, mh, dn⟩⟩ := x
+  cases tst <;> cases treq <;> cases pd <;> simp only [txRank, if_true, if_false, Bool.false_eq_true] <;> omega
+
+/-- **no_mutual_blocking, register writes** (history level).  Control inputs constant, hypotheses
+`liveCycle K T` satisfied, and in the start state and after every prefix of `h` a change of a control
+register is pending without the register window having accepted the write: then `h` is shorter than
+one transmission (`K + 2` cycles for the command plus `T`) plus `2K+5` cycles per DIR-high cycle.
+A transmission delays a pending register write by at most that. -/
+theorem write_delay_bounded (cfg : Config) (K T : Nat) (c : Controls) (x : World) (h : List UtmiIn)
+    (hc : Coh x) (hl : Live K x) (hr : x.u.phyReady = true) (hcc : ctrlConst c h = true)
+    (ho : LiveOk cfg K T x h = true) (hw : Along cfg (writeUnstarted c) x h = true) :
+    h.length ≤ K + 2 + T + (2 * K + 5) * dirHigh h := by
+  have h1 := write_wait_low cfg K T c x h hc hl hr hcc ho hw
+  have h2 := txRank_le K T x
+  have hm : (2 * K + 5) * dirHigh h = (2 * K + 4) * dirHigh h + dirHigh h := by
+    rw [show 2 * K + 5 = (2 * K + 4) + 1 from rfl, Nat.add_mul, Nat.one_mul]
+  have := dir_count h
+  omega
+
+
+/-! ## Non-vacuity of the hypotheses, and the counterexample to "DIR low once every D cycles" -/
+
+/-- A cycle with PHY data lines 0. -/
+def cyc (dir nxt : Bool) (txd : Nat) (txv : Bool) (c : Controls) : UtmiIn := ⟨⟨dir, nxt, 0⟩, txd, txv, c⟩
+
+/-- `term_select` raised, everything else 0: Function Control 0x44, OTG Control 0x00. -/
+def exCtrl : Controls := { termSelect := true }
+
+def exH0 : List UtmiIn := [cyc false false 0 false {}]
+
+/-- From the cycle after reset the control inputs are `exCtrl` (both PHY registers differ) and the
+UTMI side wants to send C3 11: write of 0x04 with one NXT wait, aborted once by DIR and restarted,
+write of 0x0A, then the packet, then idle cycles. -/
+def exH : List UtmiIn :=
+  [ cyc false false 0xC3 true exCtrl,   -- write 0x04 accepted (transmitter held off)
+    cyc false false 0xC3 true exCtrl,   -- START_WRITE
+    cyc false false 0xC3 true exCtrl,   -- command on the bus, PHY waits
+    cyc true  false 0xC3 true exCtrl,   -- DIR high: abort
+    cyc false false 0xC3 true exCtrl,   -- turnaround, START_WRITE again
+    cyc false true  0xC3 true exCtrl,   -- command accepted
+    cyc false false 0xC3 true exCtrl,   -- data, PHY waits
+    cyc false true  0xC3 true exCtrl,   -- data accepted
+    cyc false false 0xC3 true exCtrl,   -- STOPPING
+    cyc false false 0xC3 true exCtrl,   -- done
+    cyc false false 0xC3 true exCtrl,   -- write 0x0A accepted
+    cyc false false 0xC3 true exCtrl,
+    cyc false true  0xC3 true exCtrl,
+    cyc false true  0xC3 true exCtrl,
+    cyc false false 0xC3 true exCtrl,
+    cyc false false 0xC3 true exCtrl,   -- done
+    cyc false false 0xC3 true exCtrl,   -- transmitter claims the bus
+    cyc false true  0xC3 true exCtrl,   -- transmit command accepted
+    cyc false true  0x11 true exCtrl,
+    cyc false false 0 false exCtrl ]    -- STP
+  ++ List.replicate 20 (cyc false false 0 false exCtrl)
+
+/-- Non-vacuity of `converges_from_reset` (K = 1, T = 3, one DIR-high cycle, bound 34 ≤ 40 cycles) and
+of `phy_tracks_window`; the conclusion computed directly. -/
+example : LiveOk {} 1 3 (World.init {}) (exH0 ++ exH) = true ∧ ctrlConst exCtrl exH = true ∧
+    (Utmi.run {} (Utmi.init {}) exH0).phyReady = true ∧ convergeBound 1 3 (dirHigh exH) ≤ exH.length ∧
+    (World.run {} (World.init {}) (exH0 ++ exH)).p.r04 = 0x44 ∧
+    (World.run {} (World.init {}) (exH0 ++ exH)).p.r0A = 0 ∧
+    (World.run {} (World.init {}) (exH0 ++ exH)).p.writes = 2 := by decide +kernel
+
+/-- Non-vacuity of `tx_delay_bounded`: during the first 16 cycles of `exH` the transmitter waits. -/
+example : Along {} txUnstarted (World.run {} (World.init {}) exH0) (exH.take 16) = true ∧
+    allTxValid (exH.take 16) = true ∧ LiveOk {} 1 3 (World.init {}) (exH0 ++ exH.take 16) = true := by
+  decide +kernel
+
+/-- Both registers settled at their values for all-zero control inputs, then a packet is started. -/
+def exPre : List UtmiIn :=
+  [ cyc false false 0 false {}, cyc false false 0 false {}, cyc false false 0 false {},
+    cyc false true 0 false {}, cyc false true 0 false {}, cyc false false 0 false {}, cyc false false 0 false {},
+    cyc false false 0 false {}, cyc false false 0 false {},
+    cyc false true 0 false {}, cyc false true 0 false {}, cyc false false 0 false {}, cyc false false 0 false {},
+    cyc false false 0 false {},
+    cyc false false 0xC3 true {}, cyc false true 0xC3 true {} ]
+
+/-- The control inputs change while the packet is on the bus: the write waits for the STP. -/
+def exW : List UtmiIn :=
+  [ cyc false true 0x11 true exCtrl, cyc false false 0x22 true exCtrl, cyc false true 0x22 true exCtrl,
+    cyc false false 0 false exCtrl ]
+
+/-- Non-vacuity of `write_delay_bounded` (K = 1, T = 5). -/
+example : LiveOk {} 1 5 (World.init {}) (exPre ++ exW) = true ∧ ctrlConst exCtrl exW = true ∧
+    (World.run {} (World.init {}) exPre).u.phyReady = true ∧
+    Along {} (writeUnstarted exCtrl) (World.run {} (World.init {}) exPre) exW = true := by decide +kernel
+
+/-- A PHY that raises DIR in every third cycle. -/
+def exAbortPre : List UtmiIn :=
+  [ cyc false false 0 false exCtrl, cyc false false 0 false exCtrl, cyc false false 0 false exCtrl,
+    cyc false false 0 false exCtrl, cyc true false 0 false exCtrl ]
+
+def exPattern : List UtmiIn :=
+  [ cyc false false 0 false exCtrl, cyc false false 0 false exCtrl, cyc true false 0 false exCtrl ]
+
+def exRepeat : Nat → List UtmiIn
+  | 0 => []
+  | n + 1 => exPattern ++ exRepeat n
+
+/-- The state the system keeps coming back to: START_WRITE for `0x04 := 0x44` just after an abort. -/
+def exLoop : World := World.run {} (World.init {}) (exAbortPre ++ exPattern)
+
+/-- **dir_low_often_is_not_enough.**  DIR low in two cycles out of every three, every other hypothesis
+of `converges` satisfied (`K = 1`: the command is never on the bus for more than one cycle without an
+answer, because DIR cuts in; constant control inputs; start-up over; coherent start state reached from
+reset under the same hypotheses) — and for every number `n` of repetitions the system is back in the
+same state, the PHY's Function Control register still at its reset value.  Hence a convergence bound
+cannot be a function of "DIR is low at least once every D cycles"; the bound of `converges` counts the
+DIR-high cycles instead. -/
+theorem dir_low_often_is_not_enough (n : Nat) :
+    LiveOk {} 1 0 exLoop (exRepeat n) = true ∧ ctrlConst exCtrl (exRepeat n) = true ∧
+    exLoop.u.phyReady = true ∧ World.run {} exLoop (exRepeat n) = exLoop ∧
+    exLoop.p.r04 ≠ functionControl exCtrl ∧
+    LiveOk {} 1 0 (World.init {}) (exAbortPre ++ exPattern) = true := by
+  have hp : World.run {} exLoop exPattern = exLoop := by decide +kernel
+  have hl : LiveOk {} 1 0 exLoop exPattern = true := by decide +kernel
+  have hc : ctrlConst exCtrl exPattern = true := by decide +kernel
+  refine ⟨?_, ?_, by decide +kernel, ?_, by decide +kernel, by decide +kernel⟩
+  · induction n with
+    | zero => rfl
+    | succ n ih => simp only [exRepeat, LiveOk_append, hl, hp, ih, Bool.and_self]
+  · induction n with
+    | zero => rfl
+    | succ n ih =>
+      have happ : ∀ a b, ctrlConst exCtrl (a ++ b) = (ctrlConst exCtrl a && ctrlConst exCtrl b) := by
+        intro a b
+        induction a with
+        | nil => simp [ctrlConst]
+        | cons i is iha => simp [ctrlConst, iha, Bool.and_assoc]
+      simp only [exRepeat, happ, hc, ih, Bool.and_self]
+  · induction n with
+    | zero => rfl
+    | succ n ih => simp only [exRepeat, World.run_append, hp, ih]
 
 end LunaVerif.Ulpi
